@@ -45,13 +45,13 @@ func c18(c *Ctx) {
 			continue
 		}
 		for _, ci := range core.CallsIn(fn) {
-			if isOSCall(ci, "ReadDir") {
+			if isOSCall(ci, "Lstat") || isOSCall(ci, "Stat") || isOSCall(ci, "ReadDir") {
 				imp = fn
 			}
 		}
 	}
 	if imp == nil {
-		r.Break("no exported builder calls os.ReadDir: recursive importer not found")
+		r.Break("no exported builder inspects the filesystem (os.Lstat/Stat/ReadDir): recursive importer not found")
 		return
 	}
 	r.Floor("R18/importer", 1, 1)
@@ -160,35 +160,38 @@ func c18(c *Ctx) {
 		}
 	}
 	r.Check(defOK, "R18.2", name+"/arm:other", pos, "any other kind of file is rejected with an error and no link", "a file that is neither directory, symlink nor regular is not rejected with an error")
-	// symlink arm content
+	// symlink arm content (the arm itself, or the unexported helper it delegates to with the root path)
 	if b := arms["symlink"]; b != nil {
-		region := dominatedRegion(b)
-		var rl *ssa.Call
 		var bad2 []string
-		for rb := range region {
-			for _, ins := range rb.Instrs {
-				ci, ok := ins.(ssa.CallInstruction)
-				if !ok {
-					continue
-				}
-				if isOSCall(ci, "Readlink") {
-					rl, _ = ci.(*ssa.Call)
-				}
-				for _, f := range []string{"Open", "OpenFile", "ReadFile", "Stat"} {
-					if isOSCall(ci, f) {
-						bad2 = append(bad2, "os."+f+" in the symlink arm (the link would be followed)")
+		found := false
+		for _, body := range c.armBodies(imp, b, root) {
+			var rl *ssa.Call
+			for rb := range body.blocks {
+				for _, ins := range rb.Instrs {
+					ci, ok := ins.(ssa.CallInstruction)
+					if !ok {
+						continue
+					}
+					if isOSCall(ci, "Readlink") {
+						rl, _ = ci.(*ssa.Call)
+					}
+					for _, f := range []string{"Open", "OpenFile", "ReadFile", "Stat"} {
+						if isOSCall(ci, f) {
+							bad2 = append(bad2, "os."+f+" in the symlink arm (the link would be followed)")
+						}
 					}
 				}
 			}
-		}
-		if rl == nil || rl.Call.Args[0] != ssa.Value(root) {
-			bad2 = append(bad2, "os.Readlink(root) is not called")
-		} else if rl.Block() != b {
-			bad2 = append(bad2, "the symlink arm is subject to a further condition before os.Readlink")
-		} else {
+			if rl == nil || rl.Call.Args[0] != body.root {
+				continue
+			}
+			found = true
+			if rl.Block() != body.entry {
+				bad2 = append(bad2, "the symlink arm is subject to a further condition before os.Readlink")
+			}
 			target := extractOf(rl, 0)
 			passed := false
-			for rb := range region {
+			for rb := range body.blocks {
 				for _, ins := range rb.Instrs {
 					if call, ok := ins.(*ssa.Call); ok && call.Call.StaticCallee() != nil && L[call.Call.StaticCallee()] {
 						for _, a := range call.Call.Args {
@@ -203,23 +206,27 @@ func c18(c *Ctx) {
 				bad2 = append(bad2, "the link text is not handed to a storing builder")
 			}
 		}
-		r.Check(len(bad2) == 0, "R18.2", name+"/symlink-arm", c.P.Pos(firstPos(b)), "stores os.Readlink(root)'s text through the symlink builder and opens nothing", strings.Join(bad2, "; "))
+		if !found {
+			bad2 = append(bad2, "os.Readlink(root) is not called")
+		}
+		r.Check(len(bad2) == 0, "R18.2", name+"/symlink-arm", c.P.Pos(firstPos(b)), "stores os.Readlink(root)'s text through the symlink builder and opens nothing", uniqJoin(bad2))
 	}
 	if b := arms["regular"]; b != nil {
-		region := dominatedRegion(b)
 		okOpen := false
-		for rb := range region {
-			for _, ins := range rb.Instrs {
-				ci, ok := ins.(ssa.CallInstruction)
-				if !ok || !isOSCall(ci, "Open") || ci.Common().Args[0] != ssa.Value(root) {
-					continue
-				}
-				fp := extractOf(ci.(*ssa.Call), 0)
-				for _, ref := range *fp.Referrers() {
-					if mi, ok := ref.(*ssa.MakeInterface); ok {
-						for _, r2 := range *mi.Referrers() {
-							if call, ok := r2.(*ssa.Call); ok && call.Call.StaticCallee() != nil && L[call.Call.StaticCallee()] {
-								okOpen = true
+		for _, body := range c.armBodies(imp, b, root) {
+			for rb := range body.blocks {
+				for _, ins := range rb.Instrs {
+					ci, ok := ins.(ssa.CallInstruction)
+					if !ok || !isOSCall(ci, "Open") || ci.Common().Args[0] != body.root {
+						continue
+					}
+					fp := extractOf(ci.(*ssa.Call), 0)
+					for _, ref := range *fp.Referrers() {
+						if mi, ok := ref.(*ssa.MakeInterface); ok {
+							for _, r2 := range *mi.Referrers() {
+								if call, ok := r2.(*ssa.Call); ok && call.Call.StaticCallee() != nil && L[call.Call.StaticCallee()] {
+									okOpen = true
+								}
 							}
 						}
 					}
@@ -232,14 +239,30 @@ func c18(c *Ctx) {
 	c.checkNoBuilderGlobals("R18.5")
 	// ---- R18.3
 	if b := arms["dir"]; b != nil {
-		c.checkImportLoop(imp, b, root, L)
+		done := false
+		for _, body := range c.armBodies(imp, b, root) {
+			for rb := range body.blocks {
+				for _, ins := range rb.Instrs {
+					if ci, ok := ins.(ssa.CallInstruction); ok && isOSCall(ci, "ReadDir") && !done {
+						done = true
+						c.checkImportLoop(imp, body, L)
+					}
+				}
+			}
+		}
+		if !done {
+			r.Violate("R18.3", name+"/entries-loop", c.P.Pos(firstPos(b)), "the directory arm does not list root with os.ReadDir")
+		}
 	}
 }
 
-func (c *Ctx) checkImportLoop(imp *ssa.Function, arm *ssa.BasicBlock, root *ssa.Parameter, L map[*ssa.Function]bool) {
+func (c *Ctx) checkImportLoop(imp *ssa.Function, body armBody, L map[*ssa.Function]bool) {
 	r := c.R
 	name := core.FuncName(imp)
-	region := dominatedRegion(arm)
+	region := body.blocks
+	arm := body.entry
+	root := body.root
+	fnBody := body.fn
 	var rd *ssa.Call
 	for rb := range region {
 		for _, ins := range rb.Instrs {
@@ -248,13 +271,13 @@ func (c *Ctx) checkImportLoop(imp *ssa.Function, arm *ssa.BasicBlock, root *ssa.
 			}
 		}
 	}
-	if rd == nil || rd.Call.Args[0] != ssa.Value(root) {
+	if rd == nil || rd.Call.Args[0] != root {
 		r.Violate("R18.3", name+"/entries-loop", c.P.Pos(firstPos(arm)), "the directory arm does not list root with os.ReadDir")
 		return
 	}
 	entries := extractOf(rd, 0)
 	var loop *loopInfo
-	for _, li := range rangeLoops(imp) {
+	for _, li := range rangeLoops(fnBody) {
 		if li.kind == "slice" && li.rng == entries {
 			l := li
 			loop = &l
@@ -290,13 +313,13 @@ func (c *Ctx) checkImportLoop(imp *ssa.Function, arm *ssa.BasicBlock, root *ssa.
 			if !ok {
 				continue
 			}
-			if call.Call.StaticCallee() == imp {
+			if call.Call.StaticCallee() == imp || call.Call.StaticCallee() == fnBody {
 				// path.Join(root, e.Name())
 				if jc, ok := call.Call.Args[0].(*ssa.Call); ok && (core.IsCallTo(jc, "path", "Join") || core.IsCallTo(jc, "path/filepath", "Join")) {
 					va := core.VariadicArgs(jc.Call.Args[0])
 					hasRoot, hasName := false, false
 					for _, a := range va {
-						if a == ssa.Value(root) {
+						if a == root {
 							hasRoot = true
 						}
 						if isElemName(a) {
@@ -418,4 +441,42 @@ func (c *Ctx) checkImportLoop(imp *ssa.Function, arm *ssa.BasicBlock, root *ssa.
 	}
 	_ = fmt.Sprint
 	_ = types.Typ
+}
+
+// armBody is the code executed by one arm of the importer's dispatch: the blocks the arm dominates in the importer, and the
+// whole body of every unexported builder helper the arm calls with the root path (root is then that helper's parameter).
+type armBody struct {
+	fn     *ssa.Function
+	entry  *ssa.BasicBlock
+	blocks map[*ssa.BasicBlock]bool
+	root   ssa.Value
+}
+
+func (c *Ctx) armBodies(imp *ssa.Function, arm *ssa.BasicBlock, root ssa.Value) []armBody {
+	out := []armBody{{fn: imp, entry: arm, blocks: dominatedRegion(arm), root: root}}
+	for rb := range out[0].blocks {
+		for _, ins := range rb.Instrs {
+			call, ok := ins.(*ssa.Call)
+			if !ok {
+				continue
+			}
+			h := call.Call.StaticCallee()
+			if h == nil || h == imp || len(h.Blocks) == 0 {
+				continue
+			}
+			if rel, ok := c.P.PkgOf(h); !ok || !core.BuilderPkgs[rel] || (h.Object() != nil && h.Object().Exported()) {
+				continue
+			}
+			for i, a := range call.Call.Args {
+				if a == root && i < len(h.Params) && call.Block() == arm {
+					blocks := map[*ssa.BasicBlock]bool{}
+					for _, b := range h.Blocks {
+						blocks[b] = true
+					}
+					out = append(out, armBody{fn: h, entry: h.Blocks[0], blocks: blocks, root: h.Params[i]})
+				}
+			}
+		}
+	}
+	return out
 }
